@@ -719,4 +719,70 @@ example : okIs (helpTarget dConv dApp [S "help", S "server", S "add"]) (.cmd [S 
     okIs (helpTarget dConv dApp [S "help"]) .app = true ∧ okIs (helpTarget dConv dApp [S "--help"]) .app = true := by
   decide +kernel
 
+/-! ## The width hypothesis of `help_total_indented` is decided on the real pages
+
+`widthOKAt w k page` is answered by the driver for every page of every case (`width_ok`, with the threshold
+`min_width = minWidthAt k page`); the harness compares the threshold with the one read off the REAL `BlockLayout` of
+the page (longest label + offset + 2, plus the outer indentation) and `width_ok` with "the terminal of the case is at
+least that wide". -/
+
+private theorem minFold_le (a k w : Nat) : ∀ (q : Page) (m0 : Nat),
+    (q.foldl (fun m ie => match ie.2 with
+      | .emptyLine => m
+      | e => max m (need a ie.1 e + k + 2)) m0 ≤ w) ↔
+    (m0 ≤ w ∧ ∀ ie ∈ q, ie.2 = .emptyLine ∨ need a ie.1 ie.2 + k + 2 ≤ w)
+  | [], m0 => by simp
+  | ie :: q, m0 => by
+    rw [List.foldl_cons, minFold_le a k w q]
+    cases he : ie.2 with
+    | emptyLine => simp [he]
+    | paragraph t =>
+      simp only [List.mem_cons, forall_eq_or_imp, he, reduceCtorEq, false_or]
+      constructor
+      · rintro ⟨h1, h2⟩; exact ⟨by omega, by omega, h2⟩
+      · rintro ⟨h1, h2, h3⟩; exact ⟨by omega, h3⟩
+    | labeled l t p' al =>
+      simp only [List.mem_cons, forall_eq_or_imp, he, reduceCtorEq, false_or]
+      constructor
+      · rintro ⟨h1, h2⟩; exact ⟨by omega, by omega, h2⟩
+      · rintro ⟨h1, h2, h3⟩; exact ⟨by omega, h3⟩
+
+/-- **what the answers `width_ok` / `min_width` of the driver mean**: the hypothesis `widthOKAt` of
+`help_total_indented` holds exactly on the terminals at least `minWidthAt` columns wide -/
+theorem width_ok_decides (w k : Nat) (p : Page) : widthOKAt w k p = true ↔ minWidthAt k p ≤ w := by
+  rw [widthOKAt_iff]
+  have h : minWidthAt k p ≤ w ↔
+      (0 ≤ w ∧ ∀ ie ∈ p, ie.2 = .emptyLine ∨ need (align p) ie.1 ie.2 + k + 2 ≤ w) :=
+    minFold_le (align p) k w p 0
+  rw [h]
+  simp
+
+/-- the page of `server add` rendered at outer indentation 4: 19 + 4 columns are enough, 22 are not; the decider and
+the minimum width the driver answers agree (`width_ok_decides`) -/
+example : widthOKAt 23 4 (commandHelp demo (demo.ctx.enter cServer) cAdd) = true ∧
+    widthOKAt 22 4 (commandHelp demo (demo.ctx.enter cServer) cAdd) = false ∧
+    minWidthAt 4 (commandHelp demo (demo.ctx.enter cServer) cAdd) = 23 := by decide
+
+/-- `help_total_indented` applied, hypotheses discharged: at 23 columns the page renders, every width handed to
+`textwrap.wrap` is at least 1; at 22 columns it does not render -/
+example : ∃ s, renderCommandHelpAt wrapH 23 4 demo (demo.ctx.enter cServer) cAdd = .ok s :=
+  (help_total_indented wrapH 23 4 demo (demo.ctx.enter cServer) cAdd).2.1 (by decide) (by decide)
+example : ∀ call ∈ wrapCallsAt 23 4 (commandHelp demo (demo.ctx.enter cServer) cAdd), 1 ≤ call.1 :=
+  (help_total_indented wrapH 23 4 demo (demo.ctx.enter cServer) cAdd).2.2.1 _ (by decide)
+example : ∀ s, renderPageAt wrapH 22 4 (commandHelp demo (demo.ctx.enter cServer) cAdd) ≠ .ok s :=
+  (help_total_indented wrapH 22 4 demo (demo.ctx.enter cServer) cAdd).2.2.2 _ (by decide)
+
+/-- `help_width_indented` / `help_width_pages_indented` applied to that rendering: every line, the four blanks of the
+outer indentation included, is shorter than the terminal -/
+example : ∃ s, renderCommandHelpAt wrapH 30 4 demo (demo.ctx.enter cServer) cAdd = .ok s ∧
+    ∀ l ∈ pageLines s, l.length ≤ 30 - 1 := by
+  obtain ⟨s, hs⟩ := (help_total_indented wrapH 30 4 demo (demo.ctx.enter cServer) cAdd).2.1 (by decide) (by decide)
+  exact ⟨s, hs, (help_width_pages_indented 30 4 demo (demo.ctx.enter cServer) cAdd s).2.2.2 hs⟩
+example : ∃ s, renderPageAt wrapH 30 4 (commandHelp demo (demo.ctx.enter cServer) cAdd) = .ok s ∧
+    ∀ l ∈ pageLines s, l.length ≤ 30 - 1 := by
+  obtain ⟨s, hs⟩ := (help_total_indented wrapH 30 4 demo (demo.ctx.enter cServer) cAdd).2.1 (by decide) (by decide)
+  have hs' : renderPageAt wrapH 30 4 (commandHelp demo (demo.ctx.enter cServer) cAdd) = .ok s := by
+    simpa [renderCommandHelpAt, show formatOK cAdd.help = true by decide] using hs
+  exact ⟨s, hs', help_width_indented wrapH help_wrap_contract.2.1 30 4 _ s hs'⟩
+
 end Clikit.Props.C13
